@@ -149,6 +149,16 @@ def main(argv=None):
             from selftest import runner
 
             selftest, st_fail = runner.run(prop, a.repo)
+            # behaviour-preserving rewrites of every analysed function (must stay silent) ...
+            from selftest import autotwin, patches
+
+            tw, tw_bad = autotwin.run(prop, a.repo)
+            selftest["auto_twins"] = tw
+            st_fail += ["auto-twin %s:%s [%s] -> %s (%s)" % (r[0], r[1], r[2], r[3], r[4][:160]) for r in tw_bad]
+            # ... and the changes kept from independent agents: seeded/ must be reported, refactors/ must stay silent
+            pt, pt_bad = patches.run(prop, a.repo)
+            selftest["agent_patches"] = pt
+            st_fail += pt_bad
         except AnalysisError as e:
             st_fail = ["selftest: %s" % e]
         except Exception as e:
